@@ -961,6 +961,10 @@ def call_method_builtin(it, recv, name, args, kwargs, fr, node):
         return VBytes.lit(bytes.fromhex(args[0]))
     if recv is dict and name == 'fromkeys':
         raise Unsupported('dict.fromkeys')
+    if isinstance(recv, VBytes) and recv.kind == 'str':
+        r = text_method(it, recv, name, args, kwargs, fr, node)
+        if r is not NotImplemented:
+            return r
     if isinstance(recv, VBytes):
         if name == 'tobytes':
             return VBytes(recv.pieces, 'bytes')
@@ -1061,6 +1065,47 @@ def call_method_builtin(it, recv, name, args, kwargs, fr, node):
                 return VStr(ctx.fresh('str'), name)
             return VStr(z3.Function('str_' + key, I, I)(ident), name)
     raise Unsupported(f'method {name} on {type(recv).__name__} at line {node.lineno} of {fr.qualname}')
+
+
+def text_method(it, recv, name, args, kwargs, fr, node):
+    """methods of text modelled as a view of code points (single window of one buffer)"""
+    ctx = it.ctx
+    if len(recv.pieces) > 1 or (recv.pieces and recv.pieces[0].kind != 'view'):
+        return NotImplemented
+    if name == 'split' and len(args) == 2 and isinstance(args[0], str) and len(args[0]) == 1 and args[1] == 1:
+        # s.split(c, 1): cut at the FIRST occurrence of c (when there is none the whole text is the only element)
+        code = ord(args[0])
+        n = recv.length()
+        has = it.contains(recv, args[0], node)
+        if not ctx.spec_mode and not ctx.branch(has):
+            return VList([recv])
+        p = recv.pieces[0]
+        q = ctx.fresh('split!at')
+        k = z3.Int('k!sp')
+        ctx.assume(z3.And(q >= 0, q < to_z3(n), z3.Select(p.arr(), to_z3(p.off) + q) == code))
+        # stated over ABSOLUTE positions of the buffer, the form every other clause about this text uses: with relative
+        # positions the solver has to find a shifted instantiation and the verdict was unstable (proved / unknown)
+        ctx.assume(z3.ForAll([k], z3.Implies(z3.And(k >= to_z3(p.off), k < to_z3(p.off) + q), z3.Select(p.arr(), k) != code)))
+        head = VBytes([Piece('view', p.a, p.off, q)], 'str')
+        tail = VBytes([Piece('view', p.a, simp(p.off + q + 1), simp(n - q - 1))], 'str')
+        ctx.ghost['last_split'] = (head, tail, recv)
+        return VList([head, tail])
+    if name in ('rstrip', 'strip', 'lstrip') and not args:
+        # whitespace stripping keeps a sub-window of the same text; which characters go is not modelled
+        if not recv.pieces:
+            return recv
+        p = recv.pieces[0]
+        cut_l = ctx.fresh('strip!l') if name != 'rstrip' else 0
+        cut_r = ctx.fresh('strip!r') if name != 'lstrip' else 0
+        ctx.assume(z_and(to_z3(cut_l) >= 0, to_z3(cut_r) >= 0, to_z3(cut_l) + to_z3(cut_r) <= to_z3(p.len)))
+        out = VBytes([Piece('view', p.a, simp(p.off + cut_l), simp(p.len - cut_l - cut_r))], 'str')
+        out.stripped_from = recv
+        return out
+    if name == 'startswith' and len(args) == 1 and isinstance(args[0], str) and all(ord(c) < 256 for c in args[0]):
+        pre = args[0]
+        n = recv.length()
+        return simp(z_and(to_z3(n) >= len(pre), *[to_z3(recv.at(i)) == ord(c) for i, c in enumerate(pre)]))
+    return NotImplemented
 
 
 # ---------------------------------------------------------------------------------------- spec forms (contract language)
